@@ -148,3 +148,86 @@ Theorem cbor_cid_roundtrip : forall c r,
   cid_wf c = true -> Cid.byte_len c + 1 <= CidMaxLen -> rd_cid (wr_cid c ++ r) = Ok (c, r).
 Proof. exact rd_cid_wr_cid. Qed.
 Print Assumptions cbor_cid_roundtrip.
+
+(* ---- ties to the Gallina regenerated from the Go source (proofs/GenTie_C10.v) ---- *)
+From Coq Require Import ZArith NArith List Bool Lia String.
+From Lib Require Import Bytes Varint Cid Cbor.
+From Model Require Import C10_AnnounceMsg.
+From Proofs Require Import GenTie_Lib.
+From Gen Require Import Gen_Consts Gen_Funcs_prelude Gen_Funcs_message.
+Import ListNotations.
+Local Open Scope Z_scope.
+From Proofs Require Import GenTie_C10.
+
+Theorem gen_tie_MarshalCBOR : forall m : msg, agrees (enc m) (go_marshal m).
+Proof. exact GenTie_C10.tie_MarshalCBOR. Qed.
+Print Assumptions gen_tie_MarshalCBOR.
+
+Theorem gen_tie_addrs_header : forall maj n : N,
+  read_guard (message_UnmarshalCBOR_addrs_header (Z.of_N n) (Z.of_N maj))
+  = Some (match guard2 MaxLength MajArray maj n with Some _ => true | None => false end).
+Proof. exact GenTie_C10.tie_addrs_header. Qed.
+Print Assumptions gen_tie_addrs_header.
+
+Theorem gen_tie_addr_header : forall maj n : N,
+  read_guard (message_UnmarshalCBOR_addr_header (Z.of_N n) (Z.of_N maj))
+  = Some (match guard2 ByteArrayMaxLen MajByteString maj n with Some _ => true | None => false end).
+Proof. exact GenTie_C10.tie_addr_header. Qed.
+Print Assumptions gen_tie_addr_header.
+
+Theorem gen_tie_extra_header : forall maj n : N,
+  read_guard (message_UnmarshalCBOR_extra_header (Z.of_N n) (Z.of_N maj))
+  = Some (match guard2 ByteArrayMaxLen MajByteString maj n with Some _ => true | None => false end).
+Proof. exact GenTie_C10.tie_extra_header. Qed.
+Print Assumptions gen_tie_extra_header.
+
+Theorem gen_dec_addrs_uses_guard2 : forall k b,
+  dec_addrs (S k) b =
+  ('(maj, extra, r) <~ glift (rd_head b) ;;
+   match guard2 ByteArrayMaxLen MajByteString maj extra with
+   | Some e => gerr e
+   | None =>
+     _ <~ gmake_pos 1 extra ;;
+     '(x, r') <~ glift (read_full extra r) ;;
+     '(xs, r'') <~ dec_addrs k r' ;;
+     gret (mk_sl x :: xs, r'')
+   end).
+Proof. exact GenTie_C10.dec_addrs_uses_guard2. Qed.
+Print Assumptions gen_dec_addrs_uses_guard2.
+
+Theorem gen_tie_field_count : forall maj nf : N,
+  match message_UnmarshalCBOR_field_count (Z.of_N nf) (Z.of_N maj) with
+  | FReturn _ _ => field_guard maj nf = None
+  | FFall (has, _) => field_guard maj nf = Some has
+  | _ => False
+  end.
+Proof. exact GenTie_C10.tie_field_count. Qed.
+Print Assumptions gen_tie_field_count.
+
+Theorem gen_dec_g_uses_field_guard : forall b,
+  dec_g b =
+  ('(maj, nf, r1) <~ glift (rd_head b) ;;
+   match field_guard maj nf with
+   | None => gerr (if negb (maj =? MajArray)%N then EWrongMajor else EFieldCount)
+   | Some hasOrigPeer =>
+     '(c, r2) <~ rd_cid_g r1 ;;
+     '(maj2, n, r3) <~ glift (rd_head r2) ;;
+     match guard2 MaxLength MajArray maj2 n with
+     | Some e => gerr e
+     | None =>
+       _ <~ gmake_pos SliceHeader n ;;
+       '(addrs, r4) <~ dec_addrs (N.to_nat n) r3 ;;
+       '(maj3, e, r5) <~ glift (rd_head r4) ;;
+       match guard2 ByteArrayMaxLen MajByteString maj3 e with
+       | Some e => gerr e
+       | None =>
+         _ <~ gmake_pos 1 e ;;
+         '(x, r6) <~ glift (read_full e r5) ;;
+         if negb hasOrigPeer then gret (Msg (Some c) (mk_sl addrs) (mk_sl x) [], r6) else
+         '(s, r7) <~ rd_text_g MaxLength r6 ;;
+         gret (Msg (Some c) (mk_sl addrs) (mk_sl x) s, r7)
+       end
+     end
+   end).
+Proof. exact GenTie_C10.dec_g_uses_field_guard. Qed.
+Print Assumptions gen_dec_g_uses_field_guard.
